@@ -21,16 +21,6 @@ Definition u_to_yield : list action := [AU; AU; AU; AU; AU; AU].
    remove_timeout_handle, get_co_para *)
 Definition u_resume : list action := [AU; AU; AU; AU; AU; AU].
 
-Definition quiescentb_at (s : st) (k : nat) : bool :=
-  negb (running s) && Nat.eqb (rq s) 0 &&
-  match kp s with KIdle => true | _ => false end && Nat.eqb (oldk s) 0 &&
-  forallb (fun i => match un s i with NIdle => true | _ => false end) (seq 0 k) &&
-  forallb (fun i => match cn s i with CIdle => true | _ => false end) (seq 0 k) &&
-  forallb (fun i => match tm s i with
-                    | TmArmed | TmCanc => now s <? tdl s i
-                    | TmFired | TmHold => false
-                    | _ => true end) (seq 0 k).
-
 (* ------------------------------------------------------------------------------------------------ *)
 (* F8: without the deadline self-check of subscribe the time-out is lost                            *)
 (* ------------------------------------------------------------------------------------------------ *)
@@ -131,4 +121,125 @@ Corollary quiescent_no_cancel_refuted :
   ~ (forall s, ReachF s -> Quiescent s -> ~ (slot s = true /\ cbit s = true)).
 Proof.
   intros H. destruct cancel_lost_after_stale_set_co as (s & R & Q & S & C & _). exact (H s R Q (conj S C)).
+Qed.
+
+(* ------------------------------------------------------------------------------------------------ *)
+(* non-vacuity: the hypotheses of the theorems of ParkThm.v hold in reachable states                *)
+(* ------------------------------------------------------------------------------------------------ *)
+
+Ltac run_witness sched :=
+  let s := fresh "s" in let E := fresh "E" in
+  destruct (run true true init sched) as [s|] eqn:E; [|vm_compute in E; discriminate E];
+  exists s; split; [eapply run_reach_gen; [apply R0 | exact E]|];
+  vm_compute in E; injection E as E; subst s.
+
+(* the kernel half of a park without timeout, from timeout.take to the release of the guard *)
+Definition k_untimed : list action := [AK; AK; AK; AK; AK; AK; AK; AK; AK].
+(* ... of a timed park: timeout.take, now(), add_timer, handle, guard on, store, deadline check, state.load,
+   set_co, is_canceled, guard off *)
+Definition k_timed : list action := [AK; AK; AK; AK; AK; AK; AK; AK; AK; AK; AK].
+
+(* the coroutine rests in the slot, the token is set, an unparker is between swap and take *)
+Example ex_token_unparker :
+  exists s, ReachF s /\ slot s = true /\ pstate s = true /\ kp s = KIdle /\ un s 0%nat = NTake false.
+Proof. run_witness ([APark None] ++ u_to_yield ++ k_untimed ++ [AUnSwap 0%nat]). cbn. repeat split; reflexivity. Qed.
+
+(* the unpark raced with the registration: the coroutine is in the slot, the token is set, nobody but the
+   kernel half (about to re-check) will wake it: the unparker found the slot empty *)
+Example ex_token_kernel :
+  exists s, ReachF s /\ slot s = true /\ pstate s = true /\ kp s = KSload /\ forall i, un s i = NIdle.
+Proof.
+  run_witness ([APark None] ++ u_to_yield ++ [AK; AK; AK; AUnSwap 0%nat; AUnTake 0%nat; AK; AK]).
+  cbn. repeat split; try reflexivity. intros i; destruct i; reflexivity.
+Qed.
+
+(* a quiescent state with the coroutine parked (no token, no cancel): Quiescent /\ slot is satisfiable *)
+Example ex_quiescent_parked :
+  exists s, ReachF s /\ Quiescent s /\ slot s = true /\ pstate s = false /\ cbit s = false.
+Proof.
+  run_witness ([APark None] ++ u_to_yield ++ k_untimed).
+  split; [|cbn; repeat split; reflexivity].
+  unfold Quiescent, timers_quiet; cbn. repeat split; intros; try reflexivity; try (destruct i; reflexivity).
+Qed.
+
+(* ... and in a timed park, with the timer armed and its deadline ahead *)
+Example ex_quiescent_timed :
+  exists s, ReachF s /\ Quiescent s /\ slot s = true /\ armed_of (ud s) <> None /\
+            hnd s = Some 0%nat /\ tm s 0%nat = TmArmed /\ now s < tdl s 0%nat.
+Proof.
+  run_witness ([APark (Some ms1)] ++ u_to_yield ++ k_timed).
+  split; [|cbn; repeat split; try reflexivity; discriminate].
+  unfold Quiescent, timers_quiet; cbn. repeat split; intros; try reflexivity; try (destruct i; reflexivity).
+Qed.
+
+(* the deadline passed while the coroutine is in the slot: the timer thread can fire *)
+Example ex_deadline_passed :
+  exists s, ReachF s /\ slot s = true /\ hnd s = Some 0%nat /\ tm s 0%nat = TmArmed /\ tdl s 0%nat <= now s.
+Proof.
+  run_witness ([APark (Some ms1)] ++ u_to_yield ++ k_timed ++ [ATick ms1]).
+  cbn. repeat split; try reflexivity.
+Qed.
+
+(* the cancel bit is set, the coroutine is in the slot and registered, a canceller is on its way *)
+Example ex_cancel_pending :
+  exists s, ReachF s /\ slot s = true /\ cbit s = true /\ tainted s = false /\ kp s = KIdle /\
+            cco s = CThis /\ cn s 0%nat = CTakeCo.
+Proof. run_witness ([APark None] ++ u_to_yield ++ k_untimed ++ [ACnOr 0%nat]). cbn. repeat split; reflexivity. Qed.
+
+(* unpark before park *)
+Example ex_token_first : exists s, ReachF s /\ tok0 s = true /\ in_park (up s) = true.
+Proof. run_witness [AUnSwap 0%nat; APark None]. cbn. repeat split; reflexivity. Qed.
+
+(* the three verdicts on a fresh Park *)
+Example ex_ok_fresh : exists s, ReachF s /\ fresh s /\ up s = UPara /\ ctok s = true /\
+            exists s', park_returns s s' VOk.
+Proof.
+  run_witness ([ANewPark false; APark None] ++ u_to_yield ++ k_untimed ++
+               [AUnSwap 0%nat; AUnTake 0%nat; AUnSched 0%nat; AResume; AU; AU; AU; AU; AU]).
+  unfold fresh, park_returns. cbn. repeat split; try reflexivity; try lia.
+  eexists. repeat split; reflexivity.
+Qed.
+
+Example ex_timeout_fresh : exists s, ReachF s /\ fresh s /\ ud s = Some ms1 /\ exists s', park_returns s s' VTimeout.
+Proof.
+  run_witness ([ANewPark false; APark (Some ms1)] ++ u_to_yield ++ k_timed ++
+               [ATick ms1; ATFire 0%nat; ATTake 0%nat; ATRun 0%nat; AU; AU; AU; AU; AU]).
+  unfold fresh, park_returns. cbn. repeat split; try reflexivity; try lia.
+  eexists. repeat split; reflexivity.
+Qed.
+
+(* Canceled is reported to a caller that asked for it (Blocker::new(ignore_cancel = true)) *)
+Example ex_canceled_fresh : exists s, ReachF s /\ fresh s /\ cbit s = true /\ exists s', park_returns s s' VCanceled.
+Proof.
+  run_witness ([ANewPark true; APark None] ++ u_to_yield ++ k_untimed ++
+               [ACnOr 0%nat; ACnTakeCo 0%nat; ACnTake 0%nat; ACnSched 0%nat; AResume; AU; AU; AU; AU]).
+  unfold fresh, park_returns. cbn. repeat split; try reflexivity; try lia.
+  eexists. repeat split; reflexivity.
+Qed.
+
+(* (v) is needed.  Spurious Ok on the shared Park: an unparker swaps the token, the parker's first park
+   consumes it (Ok, justified), the second park suspends, and only now the unparker's wait_co.take() arrives *)
+Example spurious_ok_on_shared_park :
+  exists s, ReachF s /\ up s = UPara /\ ctok s = false /\ wsrc s = WUn true /\ ncall s = 2%nat /\
+            exists s', park_returns s s' VOk.
+Proof.
+  run_witness ([AUnSwap 0%nat; APark None; AU; AU; APark None] ++ u_to_yield ++ k_untimed ++
+               [AUnTake 0%nat; AUnSched 0%nat; AResume; AU; AU; AU; AU; AU]).
+  unfold park_returns. cbn. repeat split; try reflexivity.
+  eexists. repeat split; reflexivity.
+Qed.
+
+(* Spurious Timeout on the shared Park: park_timeout(1 ms) is unparked in time, but the timer thread pops the
+   entry before the requested removal takes effect; its callback finds the coroutine of the NEXT park
+   (without timeout!) in the slot *)
+Example spurious_timeout_on_shared_park :
+  exists s, ReachF s /\ up s = UPara /\ ud s = None /\ wsrc s = WTm true /\ ncall s = 2%nat /\
+            exists s', park_returns s s' VTimeout.
+Proof.
+  run_witness ([APark (Some ms1)] ++ u_to_yield ++ k_timed ++
+               [AUnSwap 0%nat; AUnTake 0%nat; AUnSched 0%nat; AResume] ++ u_resume ++
+               [ATick ms1; ATFire 0%nat; APark None] ++ u_to_yield ++ k_untimed ++
+               [ATTake 0%nat; ATRun 0%nat; AU; AU; AU; AU; AU]).
+  unfold park_returns. cbn. repeat split; try reflexivity.
+  eexists. repeat split; reflexivity.
 Qed.
